@@ -243,6 +243,10 @@ type Func struct {
 	// signature in a is then a ParenExpr, a kind the resolver does not handle
 	ParenFromA bool `json:"paren_from_a,omitempty"`
 	// object ids of the parameters n, e, cb and of the receiver t (functions and methods; literals have none)
+	// File: which file of its package the declaration is printed in (0 = the main file a.go / b.go, which also
+	// holds the prelude; 1 = 0first.go, sorts before the main file; 2 = mid.go, between the main file and vars.go;
+	// 3 = zlast.go, after vars.go).  Function literals live where they are used.
+	File  int `json:"file,omitempty"`
 	ObjN  int `json:"obj_n,omitempty"`
 	ObjE  int `json:"obj_e,omitempty"`
 	ObjCb int `json:"obj_cb,omitempty"`
@@ -256,13 +260,27 @@ type CallIR struct {
 	Entry string `json:"entry"` // "body", "selector", "sig", "other" (what signatures[sig] of Via leads to)
 }
 
+// PkgCall is a call of a package-level function of the SAME package outside every function body, printed at the
+// top of file File of package Pkg: `var _, _ = F(0, nil, nil)` (`func init() { F(0, nil, nil) }` for a function
+// without results).  No event for the model: a call of a declared function registers nothing.
+type PkgCall struct {
+	Pkg  int `json:"pkg"`
+	File int `json:"file"`
+	F    int `json:"f"` // table index
+}
+
 type Prog struct {
 	Funcs []*Func  `json:"funcs"`
 	Calls []CallIR `json:"calls"`
-	NObj  int      `json:"nobj"`
-	UseB  bool     `json:"use_b"`
+	// calls in package-level variable initialisers / init functions (multi-file programs)
+	PkgCalls []PkgCall `json:"pkg_calls,omitempty"`
+	NObj     int       `json:"nobj"`
+	UseB     bool      `json:"use_b"`
 	// ill-typed on purpose (the malformed stream): assignability of the alternatives is not checked
 	Malformed bool `json:"malformed,omitempty"`
+
+	// per package: rank of a file in name order -> rank in the order of the loaded FileSet (observed)
+	ranks map[int]map[int]int
 	// object ids of the fixed prelude: per package the fields of T and the package variables
 }
 
@@ -278,3 +296,81 @@ const (
 	objFalse     = 3
 	firstFreeObj = 40
 )
+
+// ---- files of a package ----
+
+const nFiles = 4
+
+// fileName of file k of package p; fileRank[k] is its place in file-name order (the order of Package.Syntax):
+// 0first.go < a.go|b.go < mid.go < vars.go < zlast.go
+func fileName(p, k int) string {
+	switch k {
+	case 1:
+		return "0first.go"
+	case 2:
+		return "mid.go"
+	case 3:
+		return "zlast.go"
+	}
+	return pkgName(p) + ".go"
+}
+
+var fileRank = [nFiles]int{1, 0, 2, 3}
+
+func clampFile(k int) int {
+	if k < 0 || k >= nFiles {
+		return 0
+	}
+	return k
+}
+
+// positions are recorded as (rank of the file) << posShift | offset in the file
+const posShift = 24
+
+func (p *Prog) multiFile() bool {
+	for _, f := range p.Funcs {
+		if f.File != 0 && !f.IsLit && !f.Iface && !f.Prelude {
+			return true
+		}
+	}
+	return false
+}
+
+// normalise recomputes what depends on the file a function is printed in: an identifier that names the package
+// variable Local (declared in the main file) is resolved by the parser (Ident.Obj != nil) only in that file.
+func (p *Prog) normalise() {
+	seen := map[int]bool{}
+	var walkE func(e *Expr, file int)
+	var walkS func(ss []*Stmt, file int)
+	walkE = func(e *Expr, file int) {
+		if e == nil {
+			return
+		}
+		if e.K == "val" && e.X == "ident" && e.Src == "Local" {
+			e.Rslv = file == 0
+		}
+		if e.K == "lit" && e.F >= 0 && e.F < len(p.Funcs) && p.Funcs[e.F].IsLit && !seen[e.F] {
+			seen[e.F] = true
+			walkS(p.Funcs[e.F].Body, file)
+		}
+		for _, a := range e.Args {
+			walkE(a, file)
+		}
+	}
+	walkS = func(ss []*Stmt, file int) {
+		for _, s := range ss {
+			for _, e := range s.Rhs {
+				walkE(e, file)
+			}
+			for _, b := range s.Blocks {
+				walkS(b, file)
+			}
+		}
+	}
+	for _, f := range p.Funcs {
+		f.File = clampFile(f.File)
+		if !f.IsLit && !f.Iface && !f.Prelude {
+			walkS(f.Body, f.File)
+		}
+	}
+}
